@@ -6,6 +6,7 @@ import (
 	"math"
 	"reflect"
 	"strings"
+	"unicode"
 
 	compact_float "github.com/kstenerud/go-compact-float"
 	compact_time "github.com/kstenerud/go-compact-time"
@@ -42,11 +43,11 @@ func c05SnakeCase(name string) string {
 	// FooBar -> foo_bar ; only used on the generator's unambiguous CamelCase names
 	var sb strings.Builder
 	for i, r := range name {
-		if r >= 'A' && r <= 'Z' {
+		if unicode.IsUpper(r) {
 			if i > 0 {
 				sb.WriteByte('_')
 			}
-			sb.WriteRune(r - 'A' + 'a')
+			sb.WriteRune(unicode.ToLower(r))
 		} else {
 			sb.WriteRune(r)
 		}
